@@ -124,6 +124,15 @@ func (e *itemEv) submitted() bool {
 	return e.submitEnd.ok() && e.submitErr == nil && e.submitPanic == ""
 }
 
+const sApply = 2
+
+// pendingSample is one reading of PendingCount() bracketed by two clock ticks.
+type pendingSample struct {
+	t1, t2 stamp
+	pc     int
+	note   string
+}
+
 type heldRec struct {
 	id, stage int
 }
@@ -149,7 +158,13 @@ type world struct {
 	strays    []string
 	seenPtr   map[*pipeline.BlockItem]int
 
-	gate         chan struct{} // non-nil: ApplyFunc blocks until it is closed
+	gate chan struct{} // non-nil: ApplyFunc blocks until it is closed
+	// per-item gates owned by the harness: key {id, stage} with stage 0/1 =
+	// decode/validate worker (hook), 2 = ApplyFunc. Filled before start; the
+	// holder blocks until the channel is closed (openGate).
+	gates        map[[2]int]chan struct{}
+	gateOpen     map[[2]int]bool
+	samples      []pendingSample
 	probePending bool
 	nSubmitStart int
 	nApplyIn     int
@@ -171,6 +186,8 @@ func newWorld(cfg pipeCfg, plans []*itemPlan) *world {
 		ev:          map[int]*itemEv{},
 		held:        map[uint64]heldRec{},
 		seenPtr:     map[*pipeline.BlockItem]int{},
+		gates:       map[[2]int]chan struct{}{},
+		gateOpen:    map[[2]int]bool{},
 		trigSubmit:  map[int]chan struct{}{},
 		trigApply:   map[int]chan struct{}{},
 		resultsDone: make(chan struct{}),
@@ -292,6 +309,9 @@ func (w *world) hook(stage string, item *pipeline.BlockItem) {
 	if d := pl.Delay[si]; d > 0 {
 		time.Sleep(d)
 	}
+	if ch := w.gates[[2]int{id, si}]; ch != nil {
+		<-ch
+	}
 	zero := false
 	if w.probePending {
 		zero = w.p.PendingCount() == 0
@@ -329,6 +349,9 @@ func (w *world) apply(item *pipeline.BlockItem) error {
 	if gate != nil {
 		<-gate
 	}
+	if ch := w.gates[[2]int{id, sApply}]; ch != nil {
+		<-ch
+	}
 	if pl != nil && pl.ApplyDelay > 0 {
 		time.Sleep(pl.ApplyDelay)
 	}
@@ -340,6 +363,69 @@ func (w *world) apply(item *pipeline.BlockItem) error {
 		return errors.New("harness: apply refused")
 	}
 	return nil
+}
+
+// addGate must be called before start.
+func (w *world) addGate(id, stage int) {
+	w.gates[[2]int{id, stage}] = make(chan struct{})
+}
+
+func (w *world) openGate(id, stage int) {
+	k := [2]int{id, stage}
+	w.mu.Lock()
+	ch, open := w.gates[k], w.gateOpen[k]
+	w.gateOpen[k] = true
+	w.mu.Unlock()
+	if ch != nil && !open {
+		close(ch)
+		w.tick()
+	}
+}
+
+func (w *world) openAllGates() {
+	for k := range w.gates {
+		w.openGate(k[0], k[1])
+	}
+}
+
+// samplePending reads PendingCount() between two ticks of the logical clock.
+func (w *world) samplePending(note string) pendingSample {
+	s := pendingSample{note: note}
+	s.t1 = w.tick()
+	s.pc = w.p.PendingCount()
+	s.t2 = w.tick()
+	w.mu.Lock()
+	w.samples = append(w.samples, s)
+	w.mu.Unlock()
+	return s
+}
+
+// knownUnfinished returns the blocks that were certainly accepted before the
+// sample began and certainly not finished when it ended: Submit returned nil
+// before t1, and (good block) its ApplyFunc call had not returned by t2 /
+// (bad block) its failing stage had not started by t2. Call with w.mu held.
+func (w *world) knownUnfinished(s pendingSample) []int {
+	var ids []int
+	for _, id := range w.sortedIDs() {
+		e, pl := w.ev[id], w.plans[id]
+		if !e.submitted() || e.submitEnd.ts >= s.t1.ts {
+			continue
+		}
+		if pl.In.good(w.validate) {
+			if len(e.applies) == 0 || !e.applies[0].out.ok() || e.applies[0].out.ts > s.t2.ts {
+				ids = append(ids, id)
+			}
+			continue
+		}
+		fs := sDecode
+		if pl.In.Decodes {
+			fs = sValidate
+		}
+		if !e.hookOut[fs].ok() || e.hookOut[fs].ts > s.t2.ts {
+			ids = append(ids, id)
+		}
+	}
+	return ids
 }
 
 func tipFor(id int) pcommon.Tip {
@@ -548,6 +634,7 @@ func clipStr(s string, n int) string {
 // short name (empty map = clean shutdown).
 func (w *world) finish() map[string]string {
 	probs := map[string]string{}
+	w.openAllGates()
 	w.stopAsync()
 	if !w.waitChan(w.stopDone, 10*time.Second) {
 		probs["stop-hangs"] = "Stop() did not return within 10 s without any pipeline progress\n" + clipStr(stackOfAll(), 30000)
